@@ -80,6 +80,7 @@ func fbb.readSection(reader, readN) (buf, err)
 
 func fbb.trimLeftSpace(r) ()
   props C03
+  loop 0 reads-input each iteration discards one byte of the input
   requires reader: r != nil
 
 # ---- message construction API as used by other packages ----
@@ -296,6 +297,8 @@ func fbb.parseSID(str) (r, err)
 # readHandshake (C05): a SID line is accepted only if it announces B2; the forwarders and
 # the challenge returned are the ones parsed from the ;FW / ;PQ lines
 ghost var gSIDParsed bool
+ghost var gPQLine string
+ghost var gPQSeen bool
 ghost var gB2 bool
 
 func fbb.(sid).Has(s, code) (r)
@@ -304,12 +307,19 @@ func fbb.(sid).Has(s, code) (r)
 
 func fbb.(*Session).readHandshake(s) (data, err)
   props C03 C16 C05
+  loop 0 reads-input each iteration peeks or reads from the remote
   requires sess: SessOK(s)
   call fbb.parseSID set gSIDParsed := $r1 == nil
   call fbb.(sid).Has requires b2-check [C05]: streq($1, "B2") && same($0, data.SID)
   call fbb.(sid).Has set gB2 := $r0
   at return requires b2-required [C05]: $r1 == nil && gSIDParsed ==> gB2
   loop 0 invariant sid: gSIDParsed ==> gB2
+  # C16/C05: the challenge handed on is everything after ";PQ: " on the last ;PQ line received
+  call strings.HasPrefix#1 requires pq-line: streq($1, ";PQ") && same($0, line)
+  call strings.HasPrefix#1 set gPQLine := ite($r0 && len($0) >= 5, $0, gPQLine)
+  call strings.HasPrefix#1 set gPQSeen := gPQSeen || ($r0 && len($0) >= 5)
+  loop 0 invariant challenge [C16 C05]: (gPQSeen ==> len(gPQLine) >= 5 && same(data.SecureChallenge, gPQLine[5:len(gPQLine)])) && (!gPQSeen ==> len(data.SecureChallenge) == 0)
+  at return requires challenge-returned [C16 C05]: $r1 == nil && gPQSeen ==> same($r0.SecureChallenge, gPQLine[5:len(gPQLine)])
 
 # handshake (C05): the master greets first (MOTD, then its handshake with no challenge) and
 # then reads; the other side reads first and answers with the challenge it was given; the
@@ -363,6 +373,8 @@ func fbb.(*Message).ReadFrom(m, r) (err)
 # one that was requested.  C17: the progress count is published atomically.
 func fbb.(*Session).readCompressed(s, rw, p) (err)
   props C03 C04 C17 C01 C05
+  loop 0 reads-input each iteration reads at least one byte from the remote
+  loop 1 decreases length - i
   requires sess: SessOK(s) && rw != nil && p != nil
   requires size-nonneg: p.compressedSize >= 0
   # gPayloadBytes: payload bytes read from the wire inside STX blocks
@@ -406,6 +418,8 @@ ghost var gFlushErr error
 
 func fbb.(*Session).writeCompressed(s, rw, p) (err)
   props C03 C17 C01 C05 C02
+  loop 1 decreases buffer.len
+  loop 2 decreases msgLen - i
   requires sess: SessOK(s) && rw != nil && p != nil
   call fmt.Sprintf#0 requires offset-text: $0 == "%d" && len($1) == 1 && unbox($1[0]) == p.offset
   call fmt.Sprintf#0 assume decimal-int64: len($r0) <= 20
@@ -432,6 +446,7 @@ func fbb.(*Session).writeCompressed(s, rw, p) (err)
   loop 1 invariant stream: remaining == buffer.len && buffer.len >= 0 && checksum == gPayloadSum && !gEOTWritten
   loop 2 invariant guarantee-remaining: 0 <= remaining && remaining <= p.compressedSize
   loop 2 invariant block: 0 <= i && i <= msgLen && remaining == buffer.len && buffer.len >= msgLen - i && checksum == gPayloadSum && !gEOTWritten && 1 <= msgLen && msgLen <= 125
+  loop 2 invariant consumed: buffer.len + i == entry(buffer.len) && msgLen >= 1
 
 # C17: the status goroutines.  They share only atomically published counters with the
 # transfer (race-free obligations at the go statements); rely: the counter stays within
@@ -470,6 +485,8 @@ func fbb.(*Session).writeProposalsAnswer(s, rw, proposals) (nAccepted, err)
   ensures no-handler: s.h == nil ==> forall k :: 0 <= k && k < len(proposals) ==> proposals[k].answer == '='
   ensures frame: forall k :: 0 <= k && k < len(proposals) ==> proposals[k] != nil
   loop 0 invariant unanswered: (forall j :: 0 <= j && j < len(unanswered) ==> 0 <= unanswered[j] && unanswered[j] < len(proposals)) && (s.h == nil ==> len(unanswered) == 0) && len(unanswered) <= $idx + 1
+  # the indexes queued for the handler are strictly increasing (each proposal at most once)
+  loop 0 invariant increasing [C05 C01]: (forall a, b :: 0 <= a && a < b && b < len(unanswered) ==> unanswered[a] < unanswered[b]) && (forall j :: 0 <= j && j < len(unanswered) ==> unanswered[j] <= $idx)
   loop 0 invariant deferred: s.h == nil ==> forall k :: 0 <= k && k <= $idx ==> proposals[k].answer == '='
   loop 0 invariant props: forall k :: 0 <= k && k < len(proposals) ==> proposals[k] != nil
   loop 1 invariant no-handler: s.h == nil ==> forall k :: 0 <= k && k < len(proposals) ==> proposals[k].answer == '='
@@ -496,6 +513,8 @@ ghost var gProcessedOK *Proposal
 
 func fbb.(*Session).handleInbound(s, rw) (quitReceived, err)
   props C03 C04 C02 C01
+  loop 0 reads-input each iteration reads one line from the remote
+  loop 1 decreases len(line) - i
   requires sess: SessOK(s) && rw != nil
   call fbb.(*Session).readCompressed requires accepted-only: $2 != nil && $2.answer == '+'
   call fbb.(*Session).readCompressed requires no-prior-error: !gFailed
@@ -537,6 +556,8 @@ ghost var gXferErr error
 
 func fbb.(*Session).sendOutbound(s, rw, outbound) (sent, err)
   props C03 C01 C05 C02
+  loop 1 decreases len(sp) - i
+  loop 2 reads-input each iteration reads one line from the remote
   requires sess: SessOK(s) && rw != nil && s.h != nil
   requires props: forall k :: 0 <= k && k < len(outbound) ==> outbound[k] != nil && Complete(outbound[k])
   call fmt.Sprintf#0 requires proposal-line: $0 == "F%c %s %s %d %d %d" && len($1) == 6 && unbox($1[0]) == prop.code && same(unbox($1[1]), prop.msgType) && same(unbox($1[2]), prop.mid) && unbox($1[3]) == prop.size && unbox($1[4]) == prop.compressedSize && unbox($1[5]) == 0
@@ -585,17 +606,22 @@ func fbb.(*Session).handleOutbound(s, rw) (quitSent, err)
 #   ErrConnLost; nil is returned only when the session is done and Close succeeded; the
 #   statistics returned are the session's.
 ghost var gConnClosed bool
+ghost var gEchoDeadline bool
 ghost var gTurnErr error
 ghost var gTurns int
 ghost var gLastWasOut bool
 
 func fbb.(*Session).Exchange(s, conn) (stats, err)
   props C01 C02 C03 C05
+  loop 0 reads-input every turn reads at least one line from the remote (or fails), or ends the session by sending FQ
   # what NewSession establishes and the setters keep
   requires session: s.log != nil && s.pLog != nil && s.pendingMessages != nil && len(s.localFW) >= 1 && conn != nil
   # package-level error values keep their initial (non-nil) value: nothing in the repository assigns them
   requires globals: ErrConnLost != nil
   call net.Conn.Close set gConnClosed := true
+  # the error echo to the remote never blocks the return: a deadline is armed on the connection first
+  call net.Conn.SetDeadline set gEchoDeadline := true
+  call fmt.Fprintf requires echo-has-deadline [C02 C03]: gEchoDeadline && $1 == "*** %s\r\n"
   call fbb.MBoxHandler.Prepare set gTurnErr := $r0
   call fbb.(*Session).handshake set gTurnErr := $r0
   call fbb.(*Session).handleOutbound set gTurnErr := $r1
